@@ -107,8 +107,10 @@ CONFIGS = {
     "ten_bit_422": dict(color_diff_format_index="color_4_2_2", luma_excursion="1023", color_diff_excursion="1023", color_diff_offset="512"),
     "hq_fragments": dict(fragment_slice_count="1"),
     "ld_plain": dict(profile="low_delay", picture_bytes="32"),
+    # a custom matrix for a transform that also has a default one (generators that switch between the two run)
+    "custom_matrix_with_default": dict(quantization_matrix="2 3 3 5", picture_bytes="40"),
 }
-QUICK_CONFIGS = ["minimal_hq", "ld_fragments"]
+QUICK_CONFIGS = ["minimal_hq", "ld_fragments", "custom_matrix_with_default"]
 
 
 def csv_text(names):
@@ -133,7 +135,7 @@ def plan(tier, seed):
         i = 0
         shards.append({"shard": 100, "config": "set:similar_names", "group": 0, "schedules": 1, "hashseed_runs": 0})
         for cfg in QUICK_CONFIGS:
-            for g in range(4):
+            for g in range(3 if cfg == "custom_matrix_with_default" else 4):
                 shards.append({"shard": i, "config": cfg, "group": g, "schedules": 2, "hashseed_runs": 1 if g == 0 else 0})
                 i += 1
     else:
